@@ -40,13 +40,13 @@ def gen(prog, mode):
     plan = {}
     plan[(It, None, 'get')] = Contract(
         ensures=[('in_range', 'idx < vx_n() ==> r is Some && var_ok(idx as int, r->Some_0)'),
-                 ('out_of_range', 'idx >= vx_n() ==> r is None')], props=['C04', 'C05'])
+                 ('out_of_range', 'idx >= vx_n() ==> r is None')], props=['C04', 'C05'], params=['idx'])
     plan[(E, 'IntoEnumIterator', 'iter')] = Contract(
         ensures=[('fresh', 'r.wf() && r.lo() == 0 && r.hi() == vx_n()')], props=['C04', 'C05'])
     nth_req = [('wf', 'old(self).wf()')]
     if mode == 'C04':
         nth_req.append(('as_called_by_next', 'n == 0'))
-    plan[(It, 'Iterator', 'nth')] = Contract(requires=nth_req, ensures=front('n'), props=['C04', 'C05'])
+    plan[(It, 'Iterator', 'nth')] = Contract(requires=nth_req, ensures=front('n'), props=['C04', 'C05'], params=['n'])
     plan[(It, 'Iterator', 'next')] = Contract(requires=[('wf', 'old(self).wf()')], ensures=front('0'), props=['C04', 'C05'])
     plan[(It, 'DoubleEndedIterator', 'next_back')] = Contract(
         requires=[('wf', 'old(self).wf()')],
@@ -60,7 +60,7 @@ def gen(prog, mode):
         ensures=[('wf', 'final(self).wf()'),
                  ('item', 'n < old(self).remaining() ==> r is Some && var_ok(old(self).hi() - 1 - n, r->Some_0) && final(self).hi() == old(self).hi() - 1 - n && final(self).lo() == old(self).lo()'),
                  ('exhausted', 'n >= old(self).remaining() ==> r is None && final(self).remaining() == 0')],
-        props=['C04', 'C05', 'C08'], optional=True)
+        props=['C04', 'C05', 'C08'], optional=True, params=['n'])
     plan[(It, 'Iterator', 'size_hint')] = Contract(
         requires=[('wf', 'self.wf()')],
         ensures=[('exact', 'r.0 == self.remaining() && r.1 == Some(r.0)')], props=['C05', 'C04'])
